@@ -1,0 +1,36 @@
+package app
+
+import "sync"
+
+// procWaitGroup counts the process goroutines Run() waits for.
+// Unlike sync.WaitGroup it allows Add to race with the return of Wait: a start request
+// (TUI, REST) may arrive at the very moment the last process ends and Run() returns.
+type procWaitGroup struct {
+	mtx  sync.Mutex
+	cond *sync.Cond
+	n    int
+}
+
+func (w *procWaitGroup) Add(delta int) {
+	w.mtx.Lock()
+	defer w.mtx.Unlock()
+	w.n += delta
+	if w.n <= 0 && w.cond != nil {
+		w.cond.Broadcast()
+	}
+}
+
+func (w *procWaitGroup) Done() {
+	w.Add(-1)
+}
+
+func (w *procWaitGroup) Wait() {
+	w.mtx.Lock()
+	defer w.mtx.Unlock()
+	if w.cond == nil {
+		w.cond = sync.NewCond(&w.mtx)
+	}
+	for w.n > 0 {
+		w.cond.Wait()
+	}
+}
